@@ -1,3 +1,5 @@
 pub mod attr;
+pub mod prov;
+pub mod tokens;
 pub mod splice;
 pub mod vlq;
